@@ -421,6 +421,120 @@ pub fn big_wrapper_query(rep: &mut Report, n: u32, seed: u64) {
     }
 }
 
+// ------------------------------------------------------------------ partitions with (almost) as many classes as characters
+
+/// Partitions whose number of intervals is the size of the alphabet (196608) or one less: built by push and by
+/// try_from_iter, queried, and merged. Expected results are written down directly (singletons).
+pub fn discrete_partitions(rep: &mut Report, prop: &str, seed: u64) {
+    use aws_smt_strings::character_sets::*;
+    const MAXC: u32 = 0x2FFFF;
+    const N: usize = MAXC as usize + 1;
+    let case = format!("discrete {}", prop);
+    let ranges_of = |cp: &CharPartition| -> Vec<(u32, u32)> { cp.ranges().map(|s| (s.pick(), s.pick() + (s.size() - 1))).collect() };
+    let singletons = |skip: Option<u32>| -> Vec<(u32, u32)> { (0..=MAXC).filter(|&c| Some(c) != skip).map(|c| (c, c)).collect() };
+    let push_all = |v: &[(u32, u32)]| -> CharPartition {
+        let mut cp = CharPartition::new();
+        for &(a, b) in v {
+            cp.push(a, b);
+        }
+        cp
+    };
+    let r = guard(|| -> Result<(), String> {
+        let full = singletons(None);
+        match prop {
+            "C11" => {
+                // push, all the way to the last character
+                let cp = push_all(&full);
+                rep.inc("discrete_partitions_built");
+                if cp.len() != N || !cp.empty_complement() || cp.num_classes() != N || ranges_of(&cp) != full {
+                    return Err(format!("the partition into {} singletons built by push has len {} / num_classes {} / empty_complement {}", N, cp.len(), cp.num_classes(), cp.empty_complement()));
+                }
+                if cp.valid_class_id(ClassId::Complement) || !cp.valid_class_id(ClassId::Interval(N - 1)) || cp.valid_class_id(ClassId::Interval(N)) || cp.class_ids().count() != N || cp.picks().count() != N {
+                    return Err("class ids / picks of the partition into singletons do not describe exactly its 196608 classes".into());
+                }
+                for c in [0u32, 1, 0xFFFF, 0x10000, MAXC - 1, MAXC] {
+                    rep.inc("discrete_partition_queries");
+                    if cp.class_of_char(c) != ClassId::Interval(c as usize) || cp.interval_cover(&CharSet::singleton(c)) != CoverResult::CoveredBy(c as usize) {
+                        return Err(format!("the partition into singletons puts character {:x} into {:?}", c, cp.class_of_char(c)));
+                    }
+                    if c < MAXC && cp.interval_cover(&CharSet::range(c, c + 1)) != CoverResult::Overlaps {
+                        return Err(format!("interval_cover([{:x},{:x}]) on the partition into singletons is not Overlaps", c, c + 1));
+                    }
+                }
+                // try_from_iter on all the singletons, scrambled: pairwise disjoint, so it must succeed and give the same partition
+                let order = crate::gen::reprog::wide_order(N as u32);
+                let t = CharPartition::try_from_iter(order.iter().map(|&c| CharSet::singleton(c))).map_err(|e| format!("try_from_iter rejects the {} pairwise disjoint singletons: {}", N, e))?;
+                if !super::c11::same_partition(&t, &cp) {
+                    return Err("try_from_iter on all singletons (scrambled order) gives a different partition than push".into());
+                }
+                // one less: the last two characters in one class
+                let mut almost = singletons(None);
+                almost.truncate(N - 2);
+                almost.push((MAXC - 1, MAXC));
+                let t2 = CharPartition::try_from_iter(almost.iter().rev().map(|&(a, b)| CharSet::range(a, b))).map_err(|e| format!("try_from_iter rejects {} pairwise disjoint sets: {}", N - 1, e))?;
+                if ranges_of(&t2) != almost || !t2.empty_complement() || t2.class_of_char(MAXC) != ClassId::Interval(N - 2) {
+                    return Err(format!("try_from_iter on {} sets (the last one [MAX-1, MAX]) gives a wrong partition", N - 1));
+                }
+                // one more than the alphabet has characters cannot be disjoint
+                let dup = CharPartition::try_from_iter((0..=MAXC).chain(std::iter::once(7)).map(CharSet::singleton));
+                if dup.is_ok() {
+                    return Err("try_from_iter accepts all singletons plus a repeated one".into());
+                }
+                // all but one character: the complementary class is that character
+                let gap = 0x61u32;
+                let cg = push_all(&singletons(Some(gap)));
+                if cg.len() != N - 1 || cg.empty_complement() || cg.pick_complement() != gap || cg.class_of_char(gap) != ClassId::Complement || cg.num_classes() != N {
+                    return Err(format!("the partition into all singletons but {:x}: len {}, empty_complement {}, witness {:x}", gap, cg.len(), cg.empty_complement(), cg.pick_complement()));
+                }
+            }
+            _ => {
+                let evens: Vec<(u32, u32)> = (0..=MAXC).filter(|c| c % 2 == 0).map(|c| (c, c)).collect();
+                let odds: Vec<(u32, u32)> = (0..=MAXC).filter(|c| c % 2 == 1).map(|c| (c, c)).collect();
+                let (pe, po) = (push_all(&evens), push_all(&odds));
+                let m = merge_partitions(&pe, &po);
+                rep.inc("discrete_partitions_merged");
+                if ranges_of(&m) != full || !m.empty_complement() {
+                    return Err(format!("merge_partitions(even singletons, odd singletons) has {} intervals, empty_complement = {}; the refinement is the {} singletons", m.len(), m.empty_complement(), N));
+                }
+                // the last two characters together, refined by a partition that separates them, in both orders
+                let mut almost = singletons(None);
+                almost.truncate(N - 2);
+                almost.push((MAXC - 1, MAXC));
+                let (pa, plast) = (push_all(&almost), push_all(&[(MAXC, MAXC)]));
+                for (name, list) in [("[p, q]", vec![&pa, &plast]), ("[q, p]", vec![&plast, &pa]), ("[p, q, q]", vec![&pa, &plast, &plast])] {
+                    let m = merge_partition_list(list.into_iter());
+                    rep.inc("discrete_partitions_merged");
+                    if ranges_of(&m) != full || !m.empty_complement() {
+                        return Err(format!("merge_partition_list({}) with p = singletons up to MAX-2 plus [MAX-1,MAX] and q = {{[MAX,MAX]}} has {} intervals (class of MAX-1: {:?}, of MAX: {:?}); the refinement separates MAX-1 from MAX", name, m.len(), m.class_of_char(MAXC - 1), m.class_of_char(MAXC)));
+                    }
+                }
+                // every character but one a singleton, refined by a two-character interval over the gap
+                let gap = 0x61u32;
+                let (pg, pq) = (push_all(&singletons(Some(gap))), push_all(&[(gap, gap + 1)]));
+                for (name, list) in [("[p, q]", vec![&pg, &pq]), ("[q, p]", vec![&pq, &pg])] {
+                    let m = merge_partition_list(list.into_iter());
+                    rep.inc("discrete_partitions_merged");
+                    if ranges_of(&m) != full || !m.empty_complement() || m.class_of_char(gap) != ClassId::Interval(gap as usize) {
+                        return Err(format!("merge_partition_list({}) with p = all singletons but 'a' and q = {{[a,b]}}: {} intervals, empty_complement = {}, class of 'a' = {:?}; the refinement is the {} singletons", name, m.len(), m.empty_complement(), m.class_of_char(gap), N));
+                    }
+                }
+                // neutral element and idempotence at full size
+                let e = CharPartition::new();
+                let m = merge_partition_list([&e, &pa, &e, &pa].into_iter());
+                if ranges_of(&m) != almost {
+                    return Err("merge_partition_list([empty, p, empty, p]) is not p for a partition of 196607 intervals".into());
+                }
+            }
+        }
+        Ok(())
+    });
+    match r {
+        Ok(Ok(())) => {}
+        Ok(Err(e)) => viol(rep, "discrete", prop, e, seed, &case),
+        Err(msg) => viol(rep, "discrete", "panic", format!("panicked on a partition with as many classes as characters: {}", msg), seed, &case),
+    }
+}
+
 pub fn replay(text: &str, seed: u64, rep: &mut Report) -> bool {
     let tk: Vec<&str> = text.split_whitespace().collect();
     match tk.as_slice() {
@@ -430,6 +544,10 @@ pub fn replay(text: &str, seed: u64, rep: &mut Report) -> bool {
                 return true;
             }
             false
+        }
+        ["discrete", p] => {
+            discrete_partitions(rep, p, seed);
+            true
         }
         ["big-query", n] => {
             if let Ok(n) = n.parse::<u32>() {
